@@ -91,6 +91,8 @@ class Check:
             self.stats[v] = {'units': prog.stats['units'], 'functions': len(prog.funcs),
                              'production_functions': len([k for k in prog.production() if k in prog.funcs]),
                              'extract_s': prog.stats['extract_s']}
+            from . import generic
+            generic.run(self, prog)
             yield v, prog
         self.variant = 'A'
 
